@@ -120,6 +120,39 @@ func init() {
 				runCfg(c, "cfg.optionLists", p, opts, &exp)
 			}
 		}},
+		Stream{"cfg.fullSizeSets", func(c *Ctx) {
+			// sets that are as LARGE as the complete set without being it: one registered name left out, an unregistered one in its place
+			// (with and without duplicates, as the last option of its kind)
+			pre := build(c)
+			odd := []string{"compound", "ECDAA", "basic", "NONE", "none ", "", "packed2"}
+			for fi, f := range sevenFormats {
+				fs := []string{}
+				for j, g := range sevenFormats {
+					if j != fi {
+						fs = append(fs, hx([]byte(g)))
+					}
+				}
+				fs = append(fs, hx([]byte(pick(c.R, odd))))
+				for _, p := range pre {
+					exp := fmtID(p.format) != f
+					runCfg(c, "cfg.fullSizeSets", p, []M{{"formats": fs}}, &exp)
+					runCfg(c, "cfg.fullSizeSets", p, []M{{"formats": subsetOf(sevenFormats, 127)}, {"formats": append(append([]string{}, fs...), fs[0])}}, &exp)
+				}
+			}
+			for ti, t := range sixTypes {
+				ts := []string{}
+				for j, g := range sixTypes {
+					if j != ti {
+						ts = append(ts, hx([]byte(g)))
+					}
+				}
+				ts = append(ts, hx([]byte(pick(c.R, odd))))
+				for _, p := range pre {
+					exp := expectedType[p.format] != t
+					runCfg(c, "cfg.fullSizeSets", p, []M{{"types": ts}}, &exp)
+				}
+			}
+		}},
 		Stream{"cfg.unknownFmt", func(c *Ctx) {
 			// arbitrary fmt strings patched into an otherwise honest attestation object: rejected under every configuration
 			pre := build(c)
